@@ -523,3 +523,95 @@ func (c *Ctx) expandKey(key string, fc *FuncContract) []vtask {
 	}
 	return out
 }
+
+// confinement checks every "confined" directive serving property P: each access to the field (FieldAddr / Field)
+// anywhere in the repository must sit in one of the owner functions or in a function literal nested in one.
+func (c *Ctx) confinement(P string) *Exec {
+	ex := &Exec{ctx: c, D: NewDecls(), externs: map[string]bool{}, assumed: map[string]bool{}, inlined: map[string]bool{}, nameAs: "confined", retCount: 1}
+	var fns []*ssa.Function
+	for fn := range ssautil.AllFunctions(c.prog) {
+		if isRepoFunc(fn) && fn.Blocks != nil && fn.Synthetic == "" {
+			fns = append(fns, fn)
+		}
+	}
+	sort.Slice(fns, func(i, j int) bool { return fns[i].String() < fns[j].String() })
+	n := 0
+	for _, cd := range c.specs.Confined {
+		if !hasProp(cd.Props, P) {
+			continue
+		}
+		n++
+		parts := strings.Split(cd.Field, ".")
+		if len(parts) != 3 {
+			ex.errs = append(ex.errs, "contract-binding: confined "+cd.Field+": want Type.field")
+			continue
+		}
+		var named *types.Named
+		fi := -1
+		if p := c.byName[parts[0]]; p != nil {
+			if t := p.Type(parts[1]); t != nil {
+				if nt, ok := t.Type().(*types.Named); ok {
+					if st, ok := nt.Underlying().(*types.Struct); ok {
+						for i := 0; i < st.NumFields(); i++ {
+							if st.Field(i).Name() == parts[2] {
+								named, fi = nt, i
+							}
+						}
+					}
+				}
+			}
+		}
+		if named == nil {
+			ex.errs = append(ex.errs, "contract-binding: confined "+cd.Field+": no such field")
+			continue
+		}
+		owner := map[string]bool{}
+		for _, o := range cd.Owners {
+			k := parts[0] + "." + o
+			if c.findFunc(k) == nil {
+				ex.errs = append(ex.errs, "contract-binding: confined "+cd.Field+": owner "+k+" not found")
+			}
+			owner[k] = true
+		}
+		accesses := 0
+		for _, fn := range fns {
+			root := fn
+			for root.Parent() != nil {
+				root = root.Parent()
+			}
+			for _, b := range fn.Blocks {
+				for _, in := range b.Instrs {
+					var xt types.Type
+					f := -1
+					switch x := in.(type) {
+					case *ssa.FieldAddr:
+						xt, f = x.X.Type(), x.Field
+					case *ssa.Field:
+						xt, f = x.X.Type(), x.Field
+					}
+					if f != fi || xt == nil || namedOf(xt) == nil || namedOf(xt).Obj() != named.Obj() {
+						continue
+					}
+					accesses++
+					if owner[funcKey(root)] {
+						continue
+					}
+					pos := c.prog.Fset.Position(in.Pos())
+					ob := &Obligation{Name: "confined:" + cd.Field + "#owner-only:" + funcKey(fn), Func: "confined:" + cd.Field, Kind: "confined", Label: funcKey(fn), Props: cd.Props, Goal: False, Decls: ex.D,
+						Where: fmt.Sprintf("%s:%d", shortPath(pos.Filename), pos.Line), Src: "confined " + cd.Src,
+						Result: &SolveResult{Status: "unknown", Backend: "ssa-scan", Output: cd.Field + " is accessed in " + funcKey(fn) + ", which is not one of its owner functions"}}
+					ex.obls = append(ex.obls, ob)
+				}
+			}
+		}
+		if accesses == 0 {
+			ex.errs = append(ex.errs, "vacuity: confined "+cd.Field+": the field is never accessed")
+		}
+		ex.obls = append(ex.obls, &Obligation{Name: "confined:" + cd.Field + "#owner-only", Func: "confined:" + cd.Field, Kind: "confined", Label: "owner-only", Props: cd.Props, Goal: True, Decls: ex.D, Src: "confined " + cd.Src,
+			Result: &SolveResult{Status: "unsat", Backend: "ssa-scan"}})
+	}
+	if n == 0 {
+		return nil
+	}
+	return ex
+}
